@@ -7,12 +7,19 @@ CB = os.path.join(build.VERIF, 'cbmc')
 STUBINC = os.path.join(CB, 'stubinc')
 
 
-def goto_cc(d, src, defs=(), name=None, extra_inc=()):
+def goto_cc(d, src, defs=(), name=None, extra_inc=(), remove_bodies=()):
     name = name or (os.path.basename(src)[:-2] + '.' + '_'.join(x.replace('=', '-') for x in defs))[:120]
     out = os.path.join(d, name + '.gb')
     cmd = ['goto-cc', '-D' + build.GUARD] + build.RELEASE_FLAGS + ['-I' + STUBINC] + build.incflags(d) + ['-I' + CB] + \
           ['-I' + x for x in extra_inc] + ['-D' + x for x in defs] + ['--function', 'harness', '-o', out, src]
     build.sh(cmd)
+    if remove_bodies:
+        out2 = out[:-3] + '.nb.gb'
+        cmd = ['goto-instrument']
+        for f in remove_bodies:
+            cmd += ['--remove-function-body', f]
+        build.sh(cmd + [out, out2])
+        return out2
     return out
 
 
@@ -106,7 +113,7 @@ def native_replay(d, src, defs, inputs, extra_src=(), link_lib=False, name=None,
 
 
 def run_harness(check, d, title, src, defs=(), unwind=2, flags=(), backend=(), timeout=600, witness_defs=('WITNESS=1',),
-                link_lib=False, extra_src=(), replay=True, family=None, unwindset=None, expect_witness=True):
+                link_lib=False, extra_src=(), replay=True, family=None, unwindset=None, expect_witness=True, remove_bodies=()):
     """compile + run one CBMC harness and its witness twin; digest into check (a checklib.Check)"""
     family = family or title
     t0 = time.time()
@@ -114,7 +121,7 @@ def run_harness(check, d, title, src, defs=(), unwind=2, flags=(), backend=(), t
             'backend': ' '.join(backend) or 'default SAT (minisat)', 'flags': list(flags)}
     viols, problems, samples = [], [], []
     try:
-        gb = goto_cc(d, src, defs)
+        gb = goto_cc(d, src, defs, remove_bodies=remove_bodies)
     except Exception as e:
         part['error'] = str(e)[-800:]
         check.add_part(part, 1, 0, problems=['%s: goto-cc failed: %s' % (title, str(e)[-600:])])
@@ -150,7 +157,7 @@ def run_harness(check, d, title, src, defs=(), unwind=2, flags=(), backend=(), t
     wq = 0
     if witness_defs is not None and expect_witness:
         try:
-            wgb = goto_cc(d, src, tuple(defs) + tuple(witness_defs))
+            wgb = goto_cc(d, src, tuple(defs) + tuple(witness_defs), remove_bodies=remove_bodies)
             wr = cbmc(wgb, unwind, flags, backend, timeout, unwindset=unwindset)
             hit = any(p['status'] == 'FAILURE' and 'WITNESS' in (p['desc'] or '') for p in wr['props'])
             part['witness'] = 'violated (reachable)' if hit else 'NOT violated'
